@@ -428,7 +428,8 @@ class Rewriter:
 
         if x.kind == "constant":
             value, like = x.operands
-            if isinstance(value, value_types):
+            if isinstance(value, value_types) and not isinstance(value, complex_types):
+                # the modulus of a complex constant is real while like is complex
                 return x.context.constant(abs(value), like)
 
     def apply(self, expr):
